@@ -510,6 +510,8 @@ def mutated(draw, ann, kinds=None, start=0):
             ok = any(m.node_value_classes(n) == ["nameClass"] and not m.node_unit_classes(n) for n in unused(pl.valued))
         elif k == "placeholder_not_allowed":
             ok = (not allow_ph) and bool(unused(pl.valued))
+        elif k == "duplicate_tag_value_case":
+            ok = bool(unused(pl.extendable))
         elif k == "duplicate_among_same_base":
             ok = bool(unused(pl.valued))
         elif k == "two_toplevel_tags_in_group":
@@ -682,6 +684,21 @@ def mutated(draw, ann, kinds=None, start=0):
         copy_t = dict(t)
         copy_t["t"] = spelled(draw, node, m) + rest
         lst.insert(draw(st.integers(0, len(lst))), copy_t)
+        expect = "TAG_EXPRESSION_REPEATED"
+    elif kind == "duplicate_tag_value_case":
+        # (not in the default lists: whether 'Label/Abc' repeats 'Label/abc' is left open - only used where the
+        # verdict must merely be the same however the two are spelled and wherever they stand)
+        extn = pick(unused(pl.extendable))
+        ext = fresh_ext(draw, pl)
+        a = make_tag(f"{spelled(draw, extn, m)}/{ext}", tag_id(extn, ext), node=extn.long, kind="ext")
+        b = make_tag(f"{spelled(draw, extn, m)}/{ext.swapcase()}", tag_id(extn, ext), node=extn.long, kind="ext")
+        path, lst = draw(st.sampled_from(list(all_groups(tree))))
+        lst.insert(draw(st.integers(0, len(lst))), a)
+        if draw(st.booleans()):     # a sibling of the same node that sorts between the two spellings
+            mid = ext[0].upper() + "zz" + ext[1:]
+            lst.insert(draw(st.integers(0, len(lst))), make_tag(f"{extn.short}/{mid}", tag_id(extn, mid),
+                                                                  node=extn.long, kind="ext"))
+        lst.insert(draw(st.integers(0, len(lst))), b)
         expect = "TAG_EXPRESSION_REPEATED"
     elif kind == "duplicate_group":
         spots = [(lst, i) for _, lst in all_groups(tree) for i, c in enumerate(lst)
